@@ -185,7 +185,7 @@ def include_table(repo, run):
                     raise Raised('FileNotFoundError')
                 return None
             if name == 'build':
-                log.append(('build',))
+                log.append(('build', tuple(args), {k_: v_ for k_, v_ in kwargs.items() if v_ is not None}))
                 return stream
             if name == 'on_preprocess':
                 log.append(('on_preprocess',))
@@ -235,6 +235,9 @@ def include_table(repo, run):
             bad2.append((sorted(exists), 'lookup directories are not taken relative to the including file (%s)' % (dirs[0][1],), got_adds, want_adds))
         if any(x[2].get('raw_yaml', 'absent') is not False for x in log if x[0] == 'add'):
             bad2.append((sorted(exists), 'the candidates are not added as files (raw_yaml=False): a name that cannot be opened would be parsed as YAML text instead of being looked for in the next directory', got_adds, want_adds))
+        flagged = [x for x in log if x[0] == 'build' and (x[1] or x[2])]
+        if flagged and not any('merge-control' in b_[1] for b_ in bad3):
+            bad3.append((sorted(exists), 'the included stream is built with %s: the carrier of the included documents must not set merge-control flags of its own (an explicit delete=False handed down makes lists in included files merge index-wise)' % (flagged[0][2] or flagged[0][1],)))
         if missing:
             if r.raised != 'FileNotFoundError':
                 bad3.append((sorted(exists), 'files %s are found nowhere but %s' % (missing, 'the sub-build runs although files are missing' if built else 'no FileNotFoundError is raised (raised: %s)' % r.raised)))
